@@ -106,5 +106,7 @@ IanaName(n) == IF n = 0 THEN "hopopt" ELSE IF n <= 145 THEN IanaProto[n] ELSE ""
 \* is the (normalised) symbolic name acceptable for protocol number n?
 ProtoNameOk(n, norm) ==
   IF n <= 144 THEN IanaName(n) = "" \/ norm = IanaName(n) \/ norm \in ProtoAlias(n)
+  \* 255 is in the registry under the keyword "Reserved"; 145..254 are unassigned or experimental (no keyword)
+  ELSE IF n = 255 THEN norm = "reserved"
   ELSE norm \in {IanaName(n), "unknown", "reserved", "unassigned", "experimental"} \ {""}
 =============================================================================
